@@ -134,8 +134,137 @@ def hyp_run(strategy, fn, n, seed):
     t()
 
 
+# ---- environment variants ------------------------------------------------------------------------
+# A task that carries an "env" entry runs in a child interpreter started with other flags and
+# variables (python -O, another TZ, another hash seed, a busy second thread): the listed properties
+# are claims about the library, not about one way of starting Python. A failure found there records
+# the variant in its case ("_env"), so shrinking is skipped and every replay runs in the same variant.
+
+ENV_VARIANTS = [
+    {"name": "O", "flags": ["-O"]},
+    {"name": "TZ-Kolkata", "vars": {"TZ": "Asia/Kolkata"}},
+    {"name": "TZ-New_York-hashseed-7", "vars": {"TZ": "America/New_York", "PYTHONHASHSEED": "7"}},
+    {"name": "busy-thread", "busy_thread": True},
+    {"name": "O-hashseed-12345-TZ-Chatham", "flags": ["-O"], "vars": {"TZ": "Pacific/Chatham", "PYTHONHASHSEED": "12345"}},
+]
+_MARK = "@@VP-CHILD-RESULT@@"
+
+
+def run_in_env(env, payload, timeout=3600):
+    """Run payload ({"mode": "task"|"replay", ...}) in a child interpreter of the given variant."""
+    cmd = [sys.executable] + list(env.get("flags", [])) + ["-m", "vp.runner", "--child"]
+    e = dict(os.environ)
+    e.update(env.get("vars", {}))
+    e["VERIF_CHILD_BUSY_THREAD"] = "1" if env.get("busy_thread") else ""
+    p = subprocess.run(cmd, input=json.dumps(payload, default=str), env=e, cwd=VERIF, text=True,
+                       stdout=subprocess.PIPE, stderr=subprocess.PIPE, timeout=timeout)
+    for line in p.stdout.splitlines():
+        if line.startswith(_MARK):
+            return json.loads(line[len(_MARK):])
+    raise HarnessError("child interpreter %s gave no result (rc=%s): %s" % (env.get("name"), p.returncode, p.stderr[-1500:]))
+
+
+def _busy_thread():
+    """A second thread that keeps the library busy on its own instances and its own trees."""
+    import threading
+    from odata_query.grammar import ODataLexer, ODataParser
+    from odata_query.roundtrip import AstToODataVisitor
+    from odata_query.sql import AstToSqliteSqlVisitor
+    from odata_query.rewrite import AliasRewriter
+    texts = ["zz1 eq 1 and contains(zz2, 'q') or zz3 in (1, 2, 3)", "not (zz4/zz5 gt 2.5)", "zz6/any(t: t/zz7 eq 'x')",
+             "tolower(zz8) eq 'y' and zz9 add 1 mul 2 lt 7", "zz10 eq 2020-01-01T00:00:00Z", "(zz11 eq", "zz12 eq 'unterminated",
+             "length(zz13) eq 3 or startswith(zz14, 'a%_')", "zz15 eq duration'P1D' or zz16 eq null"]
+    sys.setswitchinterval(1e-5)
+
+    def loop():
+        lexer, parser = ODataLexer(), ODataParser()
+        rw = AliasRewriter({"zz1": "yy/zz1"})
+        i = 0
+        while True:
+            t = texts[i % len(texts)]
+            i += 1
+            try:
+                a = parser.parse(lexer.tokenize(t))
+                AstToODataVisitor().visit(a)
+                rw.visit(a)
+                AstToSqliteSqlVisitor().visit(a)
+            except Exception:
+                pass
+
+    threading.Thread(target=loop, daemon=True).start()
+
+
+def child_main():
+    payload = json.load(sys.stdin)
+    ensure_deps()
+    use_repo()
+    if os.environ.get("VERIF_CHILD_BUSY_THREAD"):
+        _busy_thread()
+    mod = importlib.import_module(payload["mod"])
+    if payload["mode"] == "replay":
+        res = mod.replay(payload["case"])
+        out = {"res": list(res) if res else None}
+    else:
+        out = _worker((payload["mod"], payload["task"], payload["seed"]))
+        if "nontrivial" in out:
+            out["nontrivial"] = sorted(out["nontrivial"])
+    sys.stdout.write("\n" + _MARK + json.dumps(out, default=str) + "\n")
+    sys.stdout.flush()
+    os._exit(0)      # daemon threads and ORM connections are not waited for
+
+
+def replay_case(mod, case):
+    """mod.replay(case), in the environment variant the case was found in (if any)."""
+    env = case.get("_env") if isinstance(case, dict) else None
+    if not env:
+        return mod.replay(case)
+    out = run_in_env(env, {"mode": "replay", "mod": mod.__name__, "case": case})
+    return tuple(out["res"]) if out.get("res") else None
+
+
+def env_tasks(mod, tasks, tier):
+    """Clone one generated-search task per environment variant (other shard, half the cases)."""
+    pick = getattr(mod, "env_clone", None)
+    base = pick(tasks) if pick else None
+    if base is None:
+        is_rand = lambda t: "rand" in str(t.get("name", "")) or "rand" in str(t.get("kind", ""))   # noqa: E731
+        rand = [t for t in tasks if is_rand(t)]
+        other = [t for t in tasks if not is_rand(t)]
+        base = rand[:1] + other[:1]      # one generated-search shard and one slice of the exhaustive part
+    out = []
+    for vi, v in enumerate(ENV_VARIANTS if tier == "thorough" else ENV_VARIANTS[:4]):
+        for b in base:
+            t = dict(b)
+            t["name"] = "env-%s-%s" % (v["name"], b.get("name", "task"))
+            if isinstance(t.get("n"), int) and ("rand" in str(b.get("name", "")) or "machine" in str(b.get("name", ""))):
+                t["n"] = max(t["n"] // 2, 5)
+            if "shard" in t:
+                t["shard"] = 100 + vi
+            t["env"] = v
+            out.append(t)
+    return out
+
+
 def _worker(args):
     modname, task, seed = args
+    if task.get("env"):
+        try:
+            env = task["env"]
+            inner = {k: v for k, v in task.items() if k != "env"}
+            r = run_in_env(env, {"mode": "task", "mod": modname, "task": inner, "seed": seed})
+            if "harness_error" in r:
+                return r
+            r["nontrivial"] = set(r.get("nontrivial", []))
+            for f in r.get("failures", []):
+                f["bucket"] = "env[%s]:%s" % (env["name"], f["bucket"])
+                if isinstance(f.get("case"), dict):
+                    f["case"]["_env"] = env
+            r["classes"] = {("FAIL:env[%s]:%s" % (env["name"], k[5:]) if k.startswith("FAIL:") else k): v
+                            for k, v in r.get("classes", {}).items()}
+            r["classes"]["cases_in_env_variant_" + env["name"]] = r.get("evaluations", 0)
+            return r
+        except BaseException:
+            return {"harness_error": traceback.format_exc(), "task": task.get("name", "?")}
     try:
         os.environ.setdefault("PYTHONHASHSEED", "0")
         ensure_deps()
@@ -179,6 +308,8 @@ def known_ids(pid):
 
 
 def main(argv=None):
+    if (argv or sys.argv[1:])[:1] == ["--child"]:
+        return child_main()
     ap = argparse.ArgumentParser()
     ap.add_argument("prop")
     ap.add_argument("--tier", default=os.environ.get("VERIF_TIER", "quick"),
@@ -210,7 +341,7 @@ def main(argv=None):
 def do_replay(pid, mod, path):
     with open(path) as f:
         rec = json.load(f)
-    res = mod.replay(rec["case"])
+    res = replay_case(mod, rec["case"])
     if res:
         print("replay %s: FAILS bucket=%s\n  %s" % (path, res[0], res[1]))
         print("VIOLATION property=%s replay=%s" % (pid, path))
@@ -237,7 +368,7 @@ def do_run(pid, mod, tier, seed, scale):
             path = os.path.join(rdir, fn)
             with open(path) as f:
                 rec = json.load(f)
-            res = mod.replay(rec["case"])
+            res = replay_case(mod, rec["case"])
             replayed += 1
             rel = os.path.relpath(path, VERIF)
             fid = rec.get("finding")
@@ -257,6 +388,8 @@ def do_run(pid, mod, tier, seed, scale):
 
     # ---- 2. generated search ----------------------------------------------------
     tasks = mod.plan(tier, seed, scale)
+    if os.environ.get("VERIF_NO_ENV_VARIANTS") != "1":
+        tasks = tasks + env_tasks(mod, tasks, tier)
     jobs = [("vp.props." + pid.lower(), t, seed) for t in tasks]
     if NPROC > 1 and len(jobs) > 1:
         ctx = multiprocessing.get_context("fork")
@@ -309,7 +442,7 @@ def do_run(pid, mod, tier, seed, scale):
         for m in members[:n_shrink]:
             case = m["case"]
             detail = m["detail"]
-            if shrink is not None:
+            if shrink is not None and not (isinstance(case, dict) and case.get("_env")):
                 try:
                     case2 = shrink(case, bucket)
                     res = mod.replay(case2)
